@@ -92,8 +92,10 @@ def build(inst, with_reg_coefficient=1.0):
     rng = np.random.default_rng(1234 + n)
     data_full = rng.integers(-50, 50, size=H * W).astype(float)  # junk outside the mask
     data_full[inst["u"]] = np.array(inst["d"], dtype=float)
-    noise_full = np.full(H * W, 3.0)
-    noise_full[inst["u"]] = 2.0 ** np.array(inst["sig_e"], dtype=float)
+    # optional exact change of noise units: every sigma times 2^noise_shift (weights, D and F scale by 4^-noise_shift)
+    nshift = int(inst.get("noise_shift", 0))
+    noise_full = np.full(H * W, 3.0 * 2.0 ** nshift)
+    noise_full[inst["u"]] = 2.0 ** (np.array(inst["sig_e"], dtype=float) + nshift)
     K = np.array(inst["K"], dtype=float)
     ds = aa.Imaging(
         data=aa.Array2D.no_mask(values=data_full.reshape(H, W), pixel_scales=1.0),
@@ -120,7 +122,7 @@ def build(inst, with_reg_coefficient=1.0):
                                               operated=ds.convolver.convolve_mapping_matrix(mapping_matrix=Mr), regularization=reg))
             else:
                 objs.append(VFuncList(grid=aa.Grid2D.from_mask(mask), mapping_matrix=Mr, regularization=reg))
-    return ds, objs, {"no_regularization_add_to_curvature_diag_value": eps_real(inst)}
+    return ds, objs, {"no_regularization_add_to_curvature_diag_value": eps_real(inst) * 4.0 ** (-nshift)}
 
 
 def tla_instance(inst, M_list):
